@@ -35,7 +35,7 @@ def histgen(rng, oids):
     return hist.HistGen(rng, oids, weights=dict(
         insert_one=24, insert_many=8, update_one=12, update_many=5, replace_one=12,
         delete_one=6, delete_many=2, find=2, count=0, distinct=0, create_index=3,
-        drop_index=0, drop_indexes=1, drop=1), ttl=False)
+        drop_index=0, drop_indexes=1, drop=1), ttl=False, date_ids=True)
 
 
 def length(rng):
